@@ -1,6 +1,7 @@
 package main
 
 import (
+	"bytes"
 	"crypto/hmac"
 	"crypto/sha1"
 	"fmt"
@@ -212,6 +213,30 @@ func runC04(o *out, thorough bool, r *rng, _ []string) map[string]interface{} {
 	}
 	signAfterDecode(o, r, true, 120)
 	lengthSweep(o, r, true)
+	// the key buffer is the caller's: rewritten in place between AddTo / Check calls
+	for i := 0; i < 150; i++ {
+		kb := r.bytes(1 + r.intn(80))
+		var prev []byte
+		var prevKey []byte
+		for round := 0; round < 3; round++ {
+			for k := range kb {
+				kb[k] = byte(r.intn(256))
+			}
+			m := stun.New()
+			_ = m.Build(stun.BindingRequest, stun.TransactionID, stun.MessageIntegrity(kb))
+			if _, ok := rfcIntegrityVerdict(m.Raw, kb); !ok {
+				o.fail("key-buffer-reuse-keeps-old-key", fmt.Sprintf("x AddTo round=%d keylen=%d", round, len(kb)))
+			}
+			if prev != nil && !bytes.Equal(prevKey, kb) {
+				d := new(stun.Message)
+				if stun.Decode(prev, d) == nil && stun.MessageIntegrity(kb).Check(d) == nil {
+					o.fail("key-buffer-reuse-keeps-old-key", fmt.Sprintf("x a message signed under the previous key verifies under the new one, round=%d", round))
+				}
+			}
+			prev, prevKey = append([]byte(nil), m.Raw...), append([]byte(nil), kb...)
+		}
+		o.count("key-buffer-reuse")
+	}
 	// signing is refused after FINGERPRINT (history through cmd 301)
 	for i := 0; i < 40; i++ {
 		g := &histGen{r: r}
@@ -250,6 +275,30 @@ func runC05(o *out, thorough bool, r *rng, _ []string) map[string]interface{} {
 		key := r.bytes(r.intn(30))
 		data := signedMessage(r, key, r.intn(5), 0, i%2 == 0, true)
 		checkCase(o, r, 7, data, nil, "fingerprinted")
+		// bytes after the declared length (Decode tolerates them and keeps them in Raw): the verdict follows
+		// from the bytes the library hashes, whichever they are; both the untouched FINGERPRINT and one
+		// recomputed over Raw[:len-8] of the longer buffer are checked
+		for _, jl := range []int{1, 4, 7, 8, 12, 20} {
+			dj := append(append([]byte(nil), data...), r.bytes(jl)...)
+			checkCase(o, r, 7, dj, nil, "fingerprinted+trailing")
+			v := crc32.ChecksumIEEE(dj[:len(dj)-8]) ^ 0x5354554e
+			fpOff := len(data) - 4
+			dj2 := append([]byte(nil), dj...)
+			dj2[fpOff], dj2[fpOff+1], dj2[fpOff+2], dj2[fpOff+3] = byte(v>>24), byte(v>>16), byte(v>>8), byte(v)
+			checkCase(o, r, 7, dj2, nil, "fingerprinted+trailing-recomputed")
+		}
+		// a failed MESSAGE-INTEGRITY check (wrong key) must leave the message as it was: FINGERPRINT still verifies
+		if i%2 == 0 {
+			d := new(stun.Message)
+			if stun.Decode(data, d) == nil {
+				before := append([]byte(nil), d.Raw...)
+				_ = stun.MessageIntegrity(append(append([]byte(nil), key...), 0x55)).Check(d)
+				if !bytes.Equal(before, d.Raw) || stun.Fingerprint.Check(d) != nil {
+					o.fail("fingerprint-rejected-after-failed-integrity-check", "701 "+fHex(data)+" - 7,0 "+fHex(key))
+				}
+				o.count("fp-after-failed-mi-check")
+			}
+		}
 		// EVERY bit position of the message
 		for bit := 0; bit < 8*len(data); bit++ {
 			d := append([]byte(nil), data...)
